@@ -1,7 +1,9 @@
 package c19
 
 import (
+	"bufio"
 	"bytes"
+	"encoding/hex"
 	"errors"
 	"fmt"
 	"io"
@@ -39,9 +41,17 @@ type Msg struct {
 	Resp bool `json:"resp,omitempty"`
 	// Of >= 0: this response belongs to the request Msgs[Of] (same
 	// *http.Request, same ID); -1: a message of its own.
-	Of  int    `json:"of"`
-	ID  string `json:"id"` // used on the direct Stream path; first 8 bytes distinct
-	API bool   `json:"api,omitempty"`
+	Of int    `json:"of"`
+	ID string `json:"id"` // used on the direct Stream path; first 8 bytes distinct
+	// IDHex, when set, is the ID as hex: arbitrary bytes that need not be UTF-8.
+	IDHex string `json:"id_hex,omitempty"`
+	// Parsed: the message is not assembled field by field but written as an
+	// HTTP/1.1 head (request line or status line, Host, the header fields, the
+	// stated Content-Length or Transfer-Encoding: chunked) and parsed with
+	// http.ReadRequest / http.ReadResponse, as the proxy obtains its messages.
+	Parsed   bool `json:"parsed,omitempty"`
+	CLStated bool `json:"cl_stated,omitempty"` // Parsed: a Content-Length field (value CL, 0 included) is on the wire
+	API      bool `json:"api,omitempty"`
 
 	Method string `json:"method,omitempty"`
 	URL    string `json:"url,omitempty"`
@@ -85,6 +95,44 @@ type LogCase struct {
 	Second     bool  `json:"second,omitempty"`
 	Msgs       []Msg `json:"msgs"`
 	SlowWriter int   `json:"slow_writer,omitempty"` // Gosched calls inside the recording writer
+}
+
+// id is the ID handed to Stream.LogRequest / LogResponse.
+func (m Msg) id() string {
+	if m.IDHex != "" {
+		b, err := hex.DecodeString(m.IDHex)
+		if err == nil {
+			return string(b)
+		}
+	}
+	return m.ID
+}
+
+// wireHead is the HTTP/1.1 head of a Parsed message.
+func (m Msg) wireHead() string {
+	var sb strings.Builder
+	if m.Resp {
+		fmt.Fprintf(&sb, "HTTP/1.1 %s\r\n", m.Reason)
+	} else {
+		fmt.Fprintf(&sb, "%s %s HTTP/1.1\r\n", m.Method, m.URL)
+		if m.Host != "" {
+			fmt.Fprintf(&sb, "Host: %s\r\n", m.Host)
+		}
+	}
+	h := headerOf(m)
+	for _, hd := range m.Hdrs {
+		for _, v := range h[hd.K] {
+			fmt.Fprintf(&sb, "%s: %s\r\n", hd.K, v)
+		}
+	}
+	if m.CLStated {
+		fmt.Fprintf(&sb, "Content-Length: %d\r\n", m.CL)
+	}
+	if len(m.TE) > 0 {
+		fmt.Fprintf(&sb, "Transfer-Encoding: %s\r\n", strings.Join(m.TE, ", "))
+	}
+	sb.WriteString("\r\n")
+	return sb.String()
 }
 
 func (m Msg) total() int {
@@ -271,7 +319,11 @@ func headerOf(m Msg) http.Header {
 	for i, hd := range m.Hdrs {
 		vs := append([]string(nil), hd.V...)
 		if hd.Big > 0 {
-			vs = append(vs, string(kit.Text(m.Seed+uint64(i)+1, hd.Big)))
+			big := string(kit.Text(m.Seed+uint64(i)+1, hd.Big))
+			if m.Parsed {
+				big = "v" + big + "v" // net/http trims optional whitespace around a field value
+			}
+			vs = append(vs, big)
 		}
 		h[hd.K] = vs // keys as given: the map need not be canonical
 	}
@@ -279,6 +331,14 @@ func headerOf(m Msg) http.Header {
 }
 
 func buildRequest(m Msg) (*http.Request, error) {
+	if m.Parsed {
+		req, err := http.ReadRequest(bufio.NewReader(strings.NewReader(m.wireHead())))
+		if err != nil {
+			return nil, err
+		}
+		req.RemoteAddr = m.Remote
+		return req, nil
+	}
 	u, err := url.Parse(m.URL)
 	if err != nil {
 		return nil, err
@@ -302,8 +362,12 @@ func expectedHeaders(m Msg, req *http.Request) map[string][]string {
 		exp[":proto"] = []string{m.Proto}
 		exp[":remote"] = []string{m.Remote}
 		exp[":timestamp"] = []string{""}
-		if m.Host != "" {
-			exp["Host"] = []string{m.Host}
+		host := m.Host
+		if m.Parsed {
+			host = req.Host // net/http: the host of an absolute request target wins over the Host field
+		}
+		if host != "" {
+			exp["Host"] = []string{host}
 		}
 	} else {
 		exp[":proto"] = []string{m.Proto}
@@ -319,7 +383,8 @@ func expectedHeaders(m Msg, req *http.Request) map[string][]string {
 			exp[k] = vs
 		}
 	}
-	if m.CL > 0 {
+	if m.CL > 0 || (m.Parsed && m.CLStated) {
+		// a parsed message keeps the Content-Length field it came with, "0" included
 		exp["Content-Length"] = []string{strconv.FormatInt(m.CL, 10)}
 	}
 	if len(m.TE) > 0 {
@@ -409,10 +474,19 @@ func buildOnce(msgs []Msg, modifier bool) (bs []*built, removes []func(), clash 
 		}
 		if m.Resp {
 			b.exp.mt = 2
-			b.res = &http.Response{
-				StatusCode: m.Status, Status: m.Reason, Proto: m.Proto, ProtoMajor: 1, ProtoMinor: 1,
-				Header: headerOf(m), ContentLength: m.CL, TransferEncoding: m.TE,
-				Body: b.body, Request: b.req,
+			if m.Parsed {
+				res, err := http.ReadResponse(bufio.NewReader(strings.NewReader(m.wireHead())), b.req)
+				if err != nil {
+					return nil, removes, "", kit.Failf("C19/harness/bad-case", "message %d: %v", i, err)
+				}
+				res.Body = b.body
+				b.res = res
+			} else {
+				b.res = &http.Response{
+					StatusCode: m.Status, Status: m.Reason, Proto: m.Proto, ProtoMajor: 1, ProtoMinor: 1,
+					Header: headerOf(m), ContentLength: m.CL, TransferEncoding: m.TE,
+					Body: b.body, Request: b.req,
+				}
 			}
 		} else {
 			b.req.Body = b.body
@@ -431,7 +505,7 @@ func buildOnce(msgs []Msg, modifier bool) (bs []*built, removes []func(), clash 
 		if modifier {
 			b.exp.id8 = ctx.ID()[:8]
 		} else {
-			b.exp.id8 = m.ID[:8]
+			b.exp.id8 = m.id()[:8]
 		}
 		bs[i] = b
 	}
@@ -705,9 +779,9 @@ func runLog(c LogCase) kit.Verdict {
 			case c.Modifier:
 				err = k.mod.ModifyRequest(b.req)
 			case m.Resp:
-				err = k.stream.LogResponse(m.ID, b.res)
+				err = k.stream.LogResponse(m.id(), b.res)
 			default:
-				err = k.stream.LogRequest(m.ID, b.req)
+				err = k.stream.LogRequest(m.id(), b.req)
 			}
 			if err != nil {
 				return nil, err
@@ -875,9 +949,23 @@ var (
 
 func genMsg(t *rapid.T, i int, reqs []int) Msg {
 	m := Msg{Of: -1, Seed: rapid.Uint64Range(1, 1<<30).Draw(t, "seed")}
-	m.ID = string(rune('A'+i)) + rapid.StringOfN(rapid.RuneFrom(alphaID), 7, 7, -1).Draw(t, "id")
-	if rapid.Bool().Draw(t, "long_id") {
-		m.ID += rapid.StringOfN(rapid.RuneFrom(alphaID), 1, 8, -1).Draw(t, "id_tail")
+	// IDs: the first byte numbers the message, so the 8 bytes that reach the
+	// wire are distinct; the rest is ASCII, multi-byte UTF-8, or arbitrary bytes
+	switch rapid.SampledFrom([]string{"ascii", "ascii", "utf8", "bytes"}).Draw(t, "id_kind") {
+	case "ascii":
+		m.ID = string(rune('A'+i)) + rapid.StringOfN(rapid.RuneFrom(alphaID), 7, 7, -1).Draw(t, "id")
+		if rapid.Bool().Draw(t, "long_id") {
+			m.ID += rapid.StringOfN(rapid.RuneFrom(alphaID), 1, 8, -1).Draw(t, "id_tail")
+		}
+	case "utf8":
+		m.ID = string(rune('A' + i))
+		for len(m.ID) < 8 {
+			m.ID += string(rapid.SampledFrom([]rune{'é', 'ü', '\u0080', '漢', '😀', 'a', '0', '-'}).Draw(t, "id_rune"))
+		}
+	case "bytes":
+		raw := append([]byte{byte('A' + i)}, rapid.SliceOfN(rapid.Byte(), 7, 12).Draw(t, "id_bytes")...)
+		m.IDHex = hex.EncodeToString(raw)
+		m.ID = ""
 	}
 	m.Resp = rapid.Bool().Draw(t, "resp")
 	m.API = rapid.IntRange(0, 5).Draw(t, "api") == 0
@@ -914,6 +1002,50 @@ func genMsg(t *rapid.T, i int, reqs []int) Msg {
 	}
 	m.CL = rapid.SampledFrom([]int64{-1, 0, 0, 5, 1 << 20}).Draw(t, "cl")
 	m.TE = rapid.SampledFrom([][]string{nil, nil, {"chunked"}, {"gzip", "chunked"}}).Draw(t, "te")
+
+	if rapid.IntRange(0, 2).Draw(t, "parsed") == 0 {
+		// the message as net/http parses it off the wire
+		m.Parsed, m.Proto = true, "HTTP/1.1"
+		if m.Resp {
+			st := rapid.SampledFrom([]string{"200 OK", "204 No Content", "304 Not Modified", "302 Found", "404 Not Found", "500 Internal Server Error"}).Draw(t, "status_line")
+			m.Reason = st
+			m.Status, _ = strconv.Atoi(st[:3])
+		} else {
+			m.Method = rapid.SampledFrom([]string{"GET", "POST", "PUT", "DELETE", "HEAD"}).Draw(t, "pmethod")
+			m.URL = rapid.SampledFrom([]string{"/", "/origin-form/only?q=1", "http://example.com/", "http://example.com:8080/a/b%2Fc?x=1&y=%20z"}).Draw(t, "target")
+			m.Host = "example.com"
+			if strings.Contains(m.URL, ":8080") {
+				m.Host = "example.com:8080"
+			}
+		}
+		m.Hdrs = nil
+		pn := rapid.IntRange(0, 4).Draw(t, "pheaders")
+		pused := map[string]bool{}
+		for k := 0; k < pn; k++ {
+			name := rapid.SampledFrom([]string{"Accept", "X-Multi", "Cookie", "Via", "Content-Type", "X-Empty", "X-Forwarded-For", "Location"}).Draw(t, "pname")
+			if pused[name] {
+				continue
+			}
+			pused[name] = true
+			h := Hdr{K: name}
+			for j, nv := 0, rapid.IntRange(1, 3).Draw(t, "pvalues"); j < nv; j++ {
+				h.V = append(h.V, rapid.SampledFrom([]string{"", "a", "text/html; charset=utf-8", "漢字 and é", "a,b", "1.1 martian", "k=v; k2=v2", "/elsewhere"}).Draw(t, "pvalue"))
+			}
+			if rapid.IntRange(0, 9).Draw(t, "pbig") == 0 {
+				h.Big = rapid.SampledFrom([]int{255, 4096, 70000}).Draw(t, "pbig_len")
+			}
+			m.Hdrs = append(m.Hdrs, h)
+		}
+		m.TE, m.CL = nil, -1
+		switch rapid.SampledFrom([]string{"cl0", "cl0", "cl", "chunked", "none"}).Draw(t, "framing") {
+		case "cl0": // empty POST, empty 200, 204/304 saying so, redirect without body
+			m.CLStated, m.CL = true, 0
+		case "cl":
+			m.CLStated, m.CL = true, rapid.SampledFrom([]int64{1, 5, 1 << 20}).Draw(t, "pcl")
+		case "chunked":
+			m.TE = []string{"chunked"}
+		}
+	}
 
 	// body
 	total := 0
@@ -1034,6 +1166,15 @@ func logClasses(c LogCase) []string {
 		if m.Fail {
 			set["read-error"] = true
 		}
+		if m.Parsed {
+			set["parsed-by-net/http"] = true
+			if m.CLStated && m.CL == 0 {
+				set["content-length-0-stated"] = true
+			}
+		}
+		if !c.Modifier && (m.IDHex != "" || !isASCII(m.ID)) {
+			set["non-ascii-id-on-stream-path"] = true
+		}
 		if m.hasTransient() && !early {
 			set["transient-read-error-retried"] = true
 		}
@@ -1063,6 +1204,15 @@ func logClasses(c LogCase) []string {
 	return out
 }
 
+func isASCII(s string) bool {
+	for i := 0; i < len(s); i++ {
+		if s[i] >= 0x80 {
+			return false
+		}
+	}
+	return true
+}
+
 func logNonTrivial(c LogCase) bool {
 	if len(c.Msgs) >= 2 {
 		return true
@@ -1080,7 +1230,7 @@ var propLogging = &kit.Prop[LogCase]{
 	ID: "C19", Name: "logging",
 	Rule: "1..8 requests/responses (URL parts, header multisets incl. large and non-canonical fields, Host/Content-Length/Transfer-Encoding fields, API flag, request/response pairs sharing an ID) logged concurrently to one marbl stream over a recording writer, directly or through marbl.Modifier, in a quarter of the cases to two streams in turn under the same IDs (each recording must hold everything); bodies are scripted readers (0..1 MiB in chunks, empty reads, transient timeout errors with or without bytes after which the consumer retries, EOF with or after the last bytes, or a final read error) consumed with generated buffer-size sequences, optional early stop and reads past the end; the recording is parsed with marbl.Reader and an independent parser and compared per (ID, type) with the message and with the reads the consumer made; a twin of the script gives the expected Read results; non-trivial = a body spanning >= 3 reads, an empty body, >= 2 concurrent messages or an early stop",
 	Run:  runLog, NonTrivial: logNonTrivial, Classes: logClasses, Journal: true,
-	Gates: map[string]float64{"nontrivial": 0.5, "concurrent>=2": 0.4, "body-spans>=3-reads": 0.4, "empty-body": 0.15, "early-stop": 0.1, "through-modifier": 0.15, "two-streams": 0.15, "transient-read-error-retried": 0.15, "eof-with-final-bytes": 0.1, "request-response-pair": 0.1},
+	Gates: map[string]float64{"nontrivial": 0.5, "concurrent>=2": 0.4, "body-spans>=3-reads": 0.4, "empty-body": 0.15, "early-stop": 0.1, "through-modifier": 0.15, "two-streams": 0.15, "parsed-by-net/http": 0.3, "content-length-0-stated": 0.15, "non-ascii-id-on-stream-path": 0.25, "transient-read-error-retried": 0.15, "eof-with-final-bytes": 0.1, "request-response-pair": 0.1},
 	Gen: func(t *rapid.T) LogCase {
 		c := LogCase{Modifier: rapid.IntRange(0, 3).Draw(t, "modifier") == 0}
 		n := rapid.SampledFrom([]int{1, 1, 2, 3, 4, 6, 8}).Draw(t, "messages")
@@ -1093,7 +1243,7 @@ var propLogging = &kit.Prop[LogCase]{
 					m.Of = -1 // one response per request
 				} else {
 					paired[m.Of] = true
-					m.ID = c.Msgs[m.Of].ID
+					m.ID, m.IDHex = c.Msgs[m.Of].ID, c.Msgs[m.Of].IDHex
 				}
 			}
 			if !m.Resp {
